@@ -104,13 +104,22 @@ PROPS = {
                 "from {MIN, MIN+1, -1, 0, 1, 2, MAX-1, MAX} (incl. compound assignment), unary minus, all six comparisons, "
                 "float operators and methods on 22 special values, string views / list methods with indices around 0, len "
                 "and u64::MAX, counts, every prefix length 0..=255 for both families, StringBuf, to_string of every "
-                "primitive at its edges; oracle = the worker survives (and, where the language defines the result, the "
-                "emitted value equals the wrapped result); distinct = distinct (script, input) pairs",
+                "primitive at its edges; plus every built-in of the default runtime as enumerated at run time (the "
+                "probes of the builtins family: curated edge arguments incl. empty lists and strings, then random "
+                "rounds), judged on survival only; oracle = the worker survives (and, where the language defines the "
+                "result, the emitted value equals the wrapped result); distinct = distinct (script, input) pairs",
         "jobs": [
             {"family": "survive", "flavour": "release", "cases": {"quick": 0, "thorough": 0}, "case_timeout": 20},
             {"family": "survive", "flavour": "debug", "cases": {"quick": 0, "thorough": 0}, "case_timeout": 20,
              "tiers": ["thorough"], "args": {"stream": "debug"}},
             {"family": "corpus", "flavour": "release", "cases": {"quick": 0, "thorough": 0}, "args": {"prop": "C10"}, "shards": 1},
+            # every built-in of the default runtime (enumerated at run time by the builtins family of
+            # C17) on its curated edge arguments and random ones: here only survival is judged (a
+            # wrong value is C17's business), a death is attributed to the built-in
+            {"family": "builtins", "flavour": "release", "cases": {"quick": 0, "thorough": 0}, "args": {"rounds": 12},
+             "tiers": ["quick"], "only_deaths": True, "case_timeout": 60},
+            {"family": "builtins", "flavour": "release", "cases": {"quick": 0, "thorough": 0}, "args": {"rounds": 300},
+             "tiers": ["thorough"], "only_deaths": True, "case_timeout": 60},
         ],
         "level": "fault_enumeration",
         "exhaustive": True,
